@@ -29,6 +29,8 @@ FLAVOURS = [dict(is_async=a, active_low=l, step_cond=False) for a in (False, Tru
 FLAVOURS += [dict(is_async=False, active_low=False, step_cond=True), dict(is_async=True, active_low=True, step_cond=True)]
 # process created from `ctx.with_params(step_cond=...)` of a base context that carries the reset and the on_reset actions
 FLAVOURS += [dict(is_async=False, active_low=False, step_cond=True, with_params=True), dict(is_async=True, active_low=False, step_cond=True, with_params=True)]
+# coroutine processes WITHOUT any pushed signal (the reset wrapper has no reset_pushed part then)
+FLAVOURS += [dict(is_async=False, active_low=False, step_cond=False, nopush=True), dict(is_async=True, active_low=True, step_cond=False, nopush=True)]
 
 
 class ResetMixin:
@@ -128,7 +130,7 @@ def make_system(kind, d, prog, flat, flavour, on_reset):
     rst_off = 1 if flavour["active_low"] else 0
     if kind == "coro":
         sim = d.sim(init=dict(clk=0, rst=rst_off, i0=0, i1=0, **({"en": 1} if flavour.get("step_cond") else {})))
-        return ResetCoro(sim, coro.RefMachine(flat, c04=True, on_reset=on_reset), flavour)
+        return ResetCoro(sim, coro.RefMachine(flat, c04=True, on_reset=on_reset, nopush=bool(flavour.get('nopush'))), flavour)
     sim = d.sim(init=dict(clk=0, rst=rst_off, a=0, b=0, c=0, **({"en": 1} if flavour.get("step_cond") else {})))
     return ResetSeq(sim, seqbody.Ref(prog, c04=True, on_reset=on_reset), flavour)
 
@@ -213,7 +215,8 @@ def family(run):
             for p in cp:
                 yield ("coro", p, fi, (len(repr(p)) + fi) % 2 == 0)
             for p in sp:
-                yield ("seq", p, fi, (len(repr(p)) + fi) % 2 == 0)
+                if not FLAVOURS[fi].get("nopush"):
+                    yield ("seq", p, fi, (len(repr(p)) + fi) % 2 == 0)
             continue
         for p in cprogs:
             yield ("coro", p, fi, (len(repr(p)) + fi) % 2 == 0)
@@ -576,7 +579,7 @@ def main(run: Run):
 def flavour_name(fi):
     f = FLAVOURS[fi]
     return ("async" if f["is_async"] else "sync") + ("-low" if f["active_low"] else "-high") + ("-stepcond" if f.get("step_cond") else "") + \
-        ("-withparams" if f.get("with_params") else "")
+        ("-withparams" if f.get("with_params") else "") + ("-nopush" if f.get("nopush") else "")
 
 
 def replay(run: Run, data):
